@@ -78,8 +78,10 @@ def lean_string(v: str) -> str:
             out.append("\\" + ch)
         elif 32 <= ord(ch) < 127:
             out.append(ch)
+        elif ord(ch) < 0x10000:
+            out.append("\\u%04x" % ord(ch))
         else:
-            out.append("\\u{%x}" % ord(ch))
+            raise Unsupported("string literal with a code point above U+FFFF")
     return "".join(out) + '"'
 
 
@@ -173,6 +175,16 @@ class Unit:
         self.defs += tr.loop_defs
         self.defs.append(f"{doc}\ndef {sig.name}{binders} : Py V := do\n" + "\n".join(body) + "\n")
         self.names += tr.loop_names + [sig.name]
+        # the calls with 1, 2, … trailing arguments left to their defaults
+        nd = len([1 for _, d in params if d is not None])
+        for k in range(1, nd + 1):
+            given, omitted = params[:len(params) - k], params[len(params) - k:]
+            b2 = (" (fuel : Nat)" if sig.fuel else "") + "".join(f" ({lname(p)} : V)" for p, _ in given)
+            args = ("fuel " if sig.fuel else "") + " ".join([lname(p) for p, _ in given] + [d for _, d in omitted])
+            shown = ", ".join(f"{p}={d}" for p, d in omitted)
+            self.defs.append(f"/-- `{fd.name}` called with the default{'s' if k > 1 else ''} {shown} -/\n"
+                             f"def {sig.name}_default{k}{b2} : Py V := {sig.name} {args}\n")
+            self.names.append(f"{sig.name}_default{k}")
         return sig
 
     def render(self, header: str) -> str:
@@ -338,6 +350,8 @@ class _Fn:
             return self.fstring(n, ind)
         if isinstance(n, ast.Attribute):
             if self.global_kind(n.value) == "enum":
+                if n.attr not in getattr(self.u.registry[self.dotted(n.value)][0], "__members__", {}):
+                    raise self.bad(f"{ast.unparse(n)} is not a member of the enum")
                 t = self.fresh()
                 return [f"{P}let {t} ← PyU.enumMember {self.global_entry(n.value)[1]} {lean_string(n.attr)}"], t
             if n.attr in ("name", "value") and self.dotted(n) is None:
